@@ -52,6 +52,13 @@ CLAIMED = {
         note='Abstracted and trusted: the digit rendering of Python format()/int() (numeral tokens) and chr()/ord() of ordinary characters (symbolic characters; the characters that matter to quoting are realised). '
              "Excluded as not 'signed operands': base m on port numbers and DEFS sizes. Outside: arithmetic expressions/odd whitespace in operands.",
         design='4 (C02), 2.1 (numerals)', technique=TECH + '; symbolic numerals through the real text interface'),
+    'C09': dict(
+        text='The real Z80 run-length coder is executed on symbolic data (up to 7 (thorough 10) free bytes; runs of a symbolic byte of length up to 600 alone/before/after/between other symbolic bytes, both block forms): '
+             'decompress(compress(d)) == d, every emitted element is a byte, and a decoder written from the published format agrees - all by z3 per path. The real Z80 and SZX classes write registers and hardware state given as symbolic '
+             'numeral specs and read them back: every attribute (all 8/16-bit registers, MEMPTR, IFF, IM, border, T-states over the whole frame, 7FFD, FFFD, AY, FE) equals what was written, for 48K/128K/+2, and decoders written from the '
+             'published Z80 v3 and ZX-State layouts read the same values from the bytes (so the two formats agree). snapshot.poke changes exactly the addressed cell (symbolic address/value/page, operators = ^ +).',
+        note='zlib is an opaque invertible stub; bytes/bytearray are list-backed stand-ins; numeral tokens abstract format()/int(). RAM contents in the header checks are zero (RAM coding is the RLE part). Outside: SNA, --move/--patch, file I/O, command-line parsing.',
+        design='4 (C09), 3.3', technique=TECH + '; reference decoders from the published formats'),
 }
 NOT_APPLICABLE = {
     'C16': 'HTML link/anchor consistency is a property of generated document structure (which files and id= strings exist); there is no bounded arithmetic/data path to make symbolic - a solver encoding would be a copy of the writer (DESIGN.md section 5).',
